@@ -17,9 +17,12 @@ when it raises.  `Cfg` has one flag per repaired statement: all `false` is the p
 * For the **repaired** variant the full statements are theorems (`C13_step`, `C13_history`,
   `C13_rejected_unchanged`, …), for histories of any length and every entry point, `replace_child`
   included.
+* For the **current tree** (F1–F6) the first statement and the history theorem hold as well
+  (`C13_step_current`, `C13_history_current`), the second one for every entry point but
+  `replace_child` (`C13_rejected_unchanged_current`); for `replace_child` it is still false
+  (`C13_replace_ancestor_witness`, `C13_replace_workflow_witness`).
 * For the **pinned** variant the two full statements are *false*; each defect is a
-  machine-checked counterexample (`…_witness`); with F1–F6 the second one is still false for
-  `replace_child` (`C13_replace_ancestor_witness`, `C13_replace_workflow_witness`).  What holds
+  machine-checked counterexample (`…_witness`).  What holds
   in every variant is proved without the `Repaired` hypothesis (`C13_cycle_caught`,
   `C13_remove_any_variant`, `C13_replace_refused_unchanged`).
 
@@ -67,7 +70,33 @@ theorem C13_history (fuel : Nat) (kind : Nat → Kind) (strict : Nat → Bool) (
 /-- repaired variant: a rejected operation leaves everything as it was -/
 theorem C13_rejected_unchanged (fuel : Nat) : RejectedStatement (Cfg.repaired fuel) := by
   intro t op h hpre hne hrec
-  exact (step_good (repaired_repaired fuel) h op hpre).2 hne hrec
+  exact (step_good (repaired_repaired fuel) rfl h op hpre).2 hne hrec
+
+/-! ### the tree as it is now: the four `fix:` commits (F1–F6) without the replace pre-check (F7)
+
+Everything but "a rejected `replace_child` changes nothing" already holds. -/
+
+/-- current tree: an accepted operation (any entry point, `replace_child` included) preserves the
+invariant -/
+theorem C13_step_current (fuel : Nat) : StepStatement (Cfg.sixFixes fuel) := by
+  intro t op h hpre hok
+  exact step_wf (sixFixes_repaired fuel) h op hpre (by rw [hok]; decide)
+
+/-- current tree: every state reached by any history, accepted or rejected steps alike (also a
+half-done `replace_child`), satisfies the invariant -/
+theorem C13_history_current (fuel : Nat) (kind : Nat → Kind) (strict : Nat → Bool)
+    (reserved : Nat → List Str) (ops : List Op)
+    (ha : Admissible (Cfg.sixFixes fuel) (empty kind strict reserved) ops) :
+    WFTree (run (Cfg.sixFixes fuel) (empty kind strict reserved) ops) :=
+  run_wf (sixFixes_repaired fuel) ops _ (wf_empty kind strict reserved) ha
+
+/-- current tree: a rejected operation other than `replace_child` leaves everything as it was -/
+theorem C13_rejected_unchanged_current (fuel : Nat) (t : Tree) (op : Op) (h : WFTree t)
+    (hpre : OpPre t op) (hnr : op.isReplace = false)
+    (hne : (step (Cfg.sixFixes fuel) t op).2 ≠ .ok)
+    (hrec : (step (Cfg.sixFixes fuel) t op).2 ≠ .recursionError) :
+    (step (Cfg.sixFixes fuel) t op).1 = t :=
+  (step_good_nonreplace (sixFixes_repaired fuel) h op hpre hnr).2 hne hrec
 
 /-- `replace_child` refused up front (not the owner, replacement already owned, ownership
 pre-check where present): unchanged, in every variant -/
@@ -290,6 +319,9 @@ def base11 : List Op := [.new 4 ['r'] none, .new 5 ['p'] (some 4), .new 2 ['a'] 
 def t11 : Tree := run rep exEmpty base11
 theorem t11_wf : WFTree t11 := C13_history 64 _ _ _ base11 (by decide)
 
+example : Admissible cur exEmpty exOps ∧ WFTree (run cur exEmpty exOps) :=
+  ⟨by decide +kernel, C13_history_current 64 _ _ _ exOps (by decide +kernel)⟩
+
 /-- KF-C13-9 with the four `fix:` commits (F1–F6): the replacement is an ancestor of the
 composite (macro 4 owns macro 5 owns node 2; `m5.replace_child(n2, m4)`).  The old child is
 removed and the labels are swapped before `add_child` raises `CyclicPathError`; the tree stays
@@ -348,6 +380,9 @@ end PwVerif.C13
 #print axioms PwVerif.C13.C13_state_always_wf
 #print axioms PwVerif.C13.C13_history
 #print axioms PwVerif.C13.C13_rejected_unchanged
+#print axioms PwVerif.C13.C13_step_current
+#print axioms PwVerif.C13.C13_history_current
+#print axioms PwVerif.C13.C13_rejected_unchanged_current
 #print axioms PwVerif.C13.C13_replace_refused_unchanged
 #print axioms PwVerif.C13.C13_one_parent
 #print axioms PwVerif.C13.C13_rank
